@@ -551,6 +551,40 @@ def check_window(chk, rule, prog, kinds, floor, control):
     return n
 
 
+def check_signed_compare(chk, rule, prog):
+    """Sizes, lengths, counts, indices and what remains of a buffer are unsigned 64-bit quantities; the library compares them as such.  A
+    signed comparison of two of them (a cast to ptrdiff_t / long / ssize_t on both sides) misorders every value with the top bit set: a
+    declared length of 2^63 looks negative and passes every "does it fit" test.  On the unchanged tree no 64-bit comparison is signed."""
+    from ir import Inst
+    ctl = prog.funcs.get("verif_ctl_signed_compare")
+    if ctl is not None:
+        hit = any(i.op == "icmp" and i.pred.startswith("s") and _int_bits(getattr(i.operands[0], "type", None)) == 64 for i in ctl.all_insts())
+        chk.ob(rule, "positive control verif_ctl_signed_compare (two size_t values compared through long) is seen", hit, "controls/ctl_arith.c",
+               key="ctl:scmp")
+    n = 0
+    for f in prog.lib_funcs():
+        for i in f.all_insts():
+            if i.op != "icmp":
+                continue
+            bits = _int_bits(getattr(i.operands[0], "type", None))
+            if bits != 64:
+                continue
+            n += 1
+            ok = not i.pred.startswith("s")
+            if not ok:
+                # a genuinely signed quantity: both operands widened from a signed narrower value or a small constant
+                def signed_small(v):
+                    from ir import Const
+                    if isinstance(v, Const):
+                        return True
+                    return isinstance(v, Inst) and v.op == "sext"
+                ok = all(signed_small(o) for o in i.operands)
+            chk.ob(rule, "%s: the 64-bit comparison at line %d is unsigned" % (f.name, i.line), ok, i.loc(), fn=f.name,
+                   key="%s:scmp:%d" % (f.name, _ordinal_of(f, i)), nontrivial=not ok,
+                   detail="" if ok else "icmp %s on 64-bit operands: a value of 2^63 or more compares as negative" % i.pred)
+    chk.floor(rule, "64-bit comparisons in the library", n, 40)
+
+
 def check_set_handle(chk, rule, prog, eff):
     """The two set-handle routines attach what they are given, every time: on every path the item's data pointer becomes the
     `data` argument and its length the `length` argument - no early way out for "the same block again" (the bytes behind it, or the
